@@ -95,7 +95,11 @@ func vfH_C10_cont() {
 	vfrt.Assert(err == nil && len(want) == 4, "cont/reference-block-decodes")
 
 	push := vfrt.Choice("push-promise", 2) == 1
-	nCont := vfrt.Choice("continuations", 3)
+	maxCont := 3
+	if vfrt.Thorough() {
+		maxCont = 4 // up to three CONTINUATION frames
+	}
+	nCont := vfrt.Choice("continuations", maxCont)
 	// split points chosen by the sender
 	c1, c2 := len(vfBlock), len(vfBlock)
 	if nCont >= 1 {
@@ -103,6 +107,10 @@ func vfH_C10_cont() {
 	}
 	if nCont >= 2 {
 		c2 = c1 + vfrt.Choice("cut2", len(vfBlock)-c1+1)
+	}
+	c3 := len(vfBlock)
+	if nCont >= 3 {
+		c3 = c2 + vfrt.Choice("cut3", len(vfBlock)-c2+1)
 	}
 	endStream := vfrt.Bool("end-stream")
 	withPrio := vfrt.Bool("has-priority")
@@ -137,8 +145,12 @@ func vfH_C10_cont() {
 		}
 		raw = append(raw, vfFrame(9, f, 1, vfBlock[c1:c2])...)
 	}
-	if nCont >= 2 {
+	if nCont == 2 {
 		raw = append(raw, vfFrame(9, 0x04, 1, vfBlock[c2:])...)
+	}
+	if nCont >= 3 {
+		raw = append(raw, vfFrame(9, 0, 1, vfBlock[c2:c3])...)
+		raw = append(raw, vfFrame(9, 0x04, 1, vfBlock[c3:])...)
 	}
 	fr := http2.NewFramer(nil, bytes.NewReader(raw))
 	for i := 0; i <= nCont; i++ {
